@@ -37,7 +37,9 @@ func (p *Port) handleInbound() <-chan *Conn {
 	conns := make(chan *Conn)
 	go func() {
 		defer close(conns)
-		connects, cancel := p.demux.Frames(1, framesFilter{
+		// The demux must not dispatch the frames following a connect frame until the new connection has
+		// registered for them. Otherwise data sent by the remote directly after connecting is lost.
+		connects, ack, cancel := p.demux.FramesAck(framesFilter{
 			kinds: []kind{kindConnect},
 			to:    callsignFromString(p.mycall),
 		})
@@ -45,10 +47,12 @@ func (p *Port) handleInbound() <-chan *Conn {
 		for f := range connects {
 			if !bytes.HasPrefix(f.Data, []byte("*** CONNECTED To ")) {
 				debugf("inbound connection from %s not initiated by remote. ignoring.", f.From)
+				ack()
 				continue
 			}
 			conn := newConn(p, f.From.String())
 			conn.inbound = true
+			ack()
 			select {
 			case conns <- conn:
 				debugf("inbound connection from %s accepted", f.From)
